@@ -43,6 +43,22 @@ pub fn front_end(text: &str) -> Result<&'static str, String> {
             let d = pest_generator::docs::consume(pairs);
             let _ = d.grammar_doc.len() + d.line_docs.len();
         }
+        // the same front-end entered the way pest_vm's own tests (and any tool that skips the
+        // pair-level validation) enter it: reader -> consume_rules -> optimize
+        if let Ok(pairs) = parser::parse(parser::Rule::grammar_rules, text) {
+            match parser::consume_rules(pairs) {
+                Ok(rules) => {
+                    // (undefined names are reported by validate_pairs only; this route must cope with them)
+                    let opt = pest_meta::optimizer::optimize(rules);
+                    let _ = opt.len();
+                }
+                Err(errors) => {
+                    for e in errors {
+                        let _ = format!("{e}");
+                    }
+                }
+            }
+        }
         Ok(class)
     });
     match r {
@@ -186,6 +202,9 @@ pub fn run(quick: bool, w: &mut Worker, stats: &mut Stats) {
                 }
             }
         }
+    }
+    for t in frag::long_texts() {
+        unit(w, stats, &t, "long-texts");
     }
     // (iii) nesting depth sweeps
     let depth = if quick { 256 } else { 512 };
